@@ -18,7 +18,7 @@ RULE = ("request.url: full product of schemes {http,https,ws,wss} x servers (nam
         "keyed class) x queries, on both interfaces. replace(): URLs with a host (6 user-info shapes x 5 hosts x 3 ports) x every subset of <=3 of the 8 "
         "components x candidate values (passwords with '@', ':', '*'; IPv6 hosts). Query helpers on repeated keys. Non-trivial = non-default port, IPv6, "
         "Host header present, user-info involved, or >=2 components replaced; distinct = the full input tuple.")
-RULE += " Also: ports 0 / 80 / 443 under every scheme, server addresses without a port (ASGI), paths that begin with the root path, query keys that need encoding, components read through the URL object's own accessors as well as from its text, a second request object over a rewritten copy of (or the rewritten) environ / scope. request.url taken, the environ / scope then rewritten in place by a later layer, the URL object read only afterwards (it describes the request as it was)."
+RULE += " Also: ports 0 / 80 / 443 under every scheme, server addresses without a port (ASGI), paths that begin with the root path, query keys that need encoding, components read through the URL object's own accessors as well as from its text, a second request object over a rewritten copy of (or the rewritten) environ / scope. request.url taken, the environ / scope then rewritten in place by a later layer, the URL object read only afterwards (it describes the request as it was). Raw ; , : inside query values; server ports 1 / 65534 / 65535."
 ASSUMPTIONS = [
     "generator domain = what a URL can represent: user names without ':@/?#[]', passwords without '/?#[]', replacement paths empty or starting with '/', host names compared case-insensitively, IPv6 hosts passed in brackets to replace()",
     "queries are UTF-8 text without '#' (undecodable query bytes belong to C12); a server address is always present",
@@ -26,7 +26,7 @@ ASSUMPTIONS = [
 ]
 
 DEFAULT = {"http": 80, "https": 443, "ws": 80, "wss": 443}
-SERVERS = [("h", "d"), ("h", 8000), ("h", 80), ("h", 443), ("svc.internal", 443), ("svc.internal", 80), ("example.org", "d"), ("10.0.0.1", "d"), ("10.0.0.1", 81), ("::1", "d"), ("::1", 8000), ("2001:db8::7", 8443), ("h", "none"), ("::1", "none")]
+SERVERS = [("h", "d"), ("h", 8000), ("h", 65535), ("h", 1), ("::1", 65535), ("h", 65534), ("h", 80), ("h", 443), ("svc.internal", 443), ("svc.internal", 80), ("example.org", "d"), ("10.0.0.1", "d"), ("10.0.0.1", 81), ("::1", "d"), ("::1", 8000), ("2001:db8::7", 8443), ("h", "none"), ("::1", "none")]
 HOSTS = [None, "example.com", "example.com:80", "example.com:8080", "[::1]", "[::1]:8000", "EXAMPLE.com", "a.b:443"]
 ROOTS = ["", "/r", "/r/é"]
 PATHS = ["/", "/r", "/r/x", "/r/é/y", "/a", "/a/b", "/é", "/a b", "/a;b", "/a:b@c", "/~x", "", "/a//b", "//x", "/%41", "/a&b=c", "/a+b", "/中/文", "/a'(b)*!$,",
@@ -326,11 +326,13 @@ def repr_never_leaks(ctx):
 def check_query_helpers(ctx, rng):
     from baize.datastructures import URL
     keys = ["a", "b", "c", "k k", "é"]
-    pairs = [(rng.choice(keys), rng.choice(["1", "2", "", "x y", "&", "="])) for _ in range(rng.randrange(0, 6))]
+    pairs = [(rng.choice(keys), rng.choice(["1", "2", "", "x y", "&", "=", "a;b", "p;q=r", "1,2"])) for _ in range(rng.randrange(0, 6))]
     if rng.random() < 0.3:  # a key with three or more values, other keys in between and after
         pairs = [("a", "1"), ("a", "2"), ("b", "x"), ("a", "3"), ("c", "y")][:rng.randrange(3, 6)] + pairs[:2]
     from urllib.parse import urlencode
-    base = URL("http://u:pw@h:81/p" + ("?" + urlencode(pairs) if pairs else "") + "#f")
+    # ';' ',' ':' may stand in a query as they are (sub-delims): they are characters of a value, not separators
+    base_text = "http://u:pw@h:81/p" + ("?" + urlencode(pairs, safe=";,:" if len(pairs) % 2 else "") if pairs else "") + "#f"
+    base = URL(base_text)
     ctx.mon("query-helpers")
     op = rng.choice(["include", "replace", "remove"])
     case = {"pairs": pairs, "op": op}
@@ -369,7 +371,7 @@ def check_query_helpers(ctx, rng):
         ctx.violation(f"query|{op}|other-components-changed", case, str(new))
     check_repr(ctx, new)
     # the helpers return new URLs: the URL they were called on is unchanged, and calling a helper on it again gives the same answer
-    if str(base) != "http://u:pw@h:81/p" + ("?" + urlencode(pairs) if pairs else "") + "#f":
+    if str(base) != base_text:
         ctx.violation(f"query|{op}|the-original-url-was-modified", case, str(base))
     again = base.include_query_params(**case["kwargs"]) if op == "include" else base.replace_query_params(**case["kwargs"]) if op == "replace" else base.remove_query_params(*case["keys"])
     other = base.remove_query_params("a") if op != "remove" else base.include_query_params(zz="1")
